@@ -264,6 +264,145 @@ def literal_grammar():
   return out
 
 
+# ----------------------------------------------------------------- the GetParams grammar itself
+GRAMMAR_SHAPE = ("call(attr(add(add(pyparsing.Suppress('('), pyparsing.Optional(pyparsing.delimitedList(pyparsing.Group("
+                 "add(pyparsing.Regex(<R>), pyparsing.Optional(add(pyparsing.Suppress('='), pyparsing.Regex(<R>)))))))), "
+                 "pyparsing.Suppress(')')), 'parseString'), '(...)')")
+_MAXCH = 0x2FFFF          # z3's character sort
+
+
+def _space_ranges():
+  import re as _re
+  sp = _re.compile(r"\s")
+  out, start, prev = [], None, None
+  for c in range(_MAXCH + 1):
+    if sp.fullmatch(chr(c)):
+      if start is None:
+        start = c
+      prev = c
+    elif start is not None:
+      out.append((start, prev))
+      start = None
+  if start is not None:
+    out.append((start, prev))
+  return out
+
+
+def _z3_class(ranges):
+  rs = [z3.Range(z3.StringVal(chr(a)), z3.StringVal(chr(b))) for a, b in ranges]
+  return rs[0] if len(rs) == 1 else z3.Union(*rs)
+
+
+def _z3_not(cls):
+  return z3.Intersect(z3.AllChar(z3.ReSort(z3.StringSort())), z3.Complement(cls))
+
+
+def regex_to_z3(pattern):
+  """Python regular expression (the subset used by safe_eval: literals, '.', character classes with negation, ranges and
+  \s, greedy * + ? {m,n}) -> z3 regular expression.  fullmatch semantics, so greedy/lazy does not matter.  Anything else
+  raises Unsupported (the obligation is then undecided, never a violation)."""
+  try:
+    import re._parser as sp           # python >= 3.11
+  except ImportError:                 # pragma: no cover
+    import sre_parse as sp
+  C = sp
+
+  def cls_item(op, av):
+    if op is C.LITERAL:
+      return [(av, av)]
+    if op is C.RANGE:
+      return [(av[0], av[1])]
+    if op is C.CATEGORY and av is C.CATEGORY_SPACE:
+      return _space_ranges()
+    raise Unsupported("regex class item %r" % ((op, av),))
+
+  def item(op, av):
+    if op is C.LITERAL:
+      return z3.Re(z3.StringVal(chr(av)))
+    if op is C.ANY:
+      return _z3_not(z3.Re(z3.StringVal("\n")))
+    if op is C.IN:
+      neg = bool(av) and av[0][0] is C.NEGATE
+      rs = []
+      for o, a in (av[1:] if neg else av):
+        rs.extend(cls_item(o, a))
+      c = _z3_class(rs)
+      return _z3_not(c) if neg else c
+    if op in (C.MAX_REPEAT, C.MIN_REPEAT):
+      lo, hi, sub = av
+      body = seq(sub)
+      if hi is C.MAXREPEAT:
+        return z3.Star(body) if lo == 0 else z3.Plus(body) if lo == 1 else z3.Concat(z3.Loop(body, lo, lo), z3.Star(body))
+      return z3.Loop(body, lo, hi)
+    raise Unsupported("regex construct %r" % (op,))
+
+  def seq(items):
+    parts = [item(o, a) for o, a in items]
+    if not parts:
+      return z3.Re(z3.StringVal(""))
+    return parts[0] if len(parts) == 1 else z3.Concat(*parts)
+
+  return seq(list(sp.parse(pattern)))
+
+
+def language_difference(prog, spec):
+  """None if the two z3 regular expressions denote the same language, else a string in exactly one of them."""
+  x = z3.String("text")
+  sol = z3.Solver()
+  sol.set("timeout", 60000)
+  sol.add(z3.InRe(x, prog) != z3.InRe(x, spec))
+  r = sol.check()
+  if r == z3.unsat:
+    return None
+  if r == z3.sat:
+    return sol.model().eval(x, model_completion=True).as_string()
+  raise Unsupported("regular-language equivalence undecided: %s" % sol.reason_unknown())
+
+
+def grammar_scenario():
+  """The pyparsing grammar GetParams builds (term mode: the construction is recorded, not executed).  Reduces the assumed
+  tokenisation contract to pyparsing's own operators: the two Regex literals of the real source are translated to z3
+  regular expressions and their LANGUAGES are proved equal to the documented item syntax
+      key / positional item :  one or more characters other than  = , ) and white space
+      keyword value         :  everything up to the next  ,  or  )   (so a space-separated number list is ONE value)
+  The shape of the grammar around them is compared with the recorded shape; a different shape is reported as undecided."""
+  def scenario(ip):
+    import re as _re
+    s = Scen()
+    mod = ip.get_module("qkeras.safe_eval")
+    seen = {}
+
+    def hook(ip_, recv, a, k):
+      seen["g"] = recv
+      return []
+    ip.term_hooks = {"asList": hook}
+    r = run_call(ip, mod.env.vars["GetParams"], ["(...)"])
+    s.claim("no_raise", r[0] == "return" and "g" in seen)
+    if "g" not in seen:
+      return s
+    text = repr(seen["g"])
+    lit = _re.compile(r"pyparsing\.Regex\(('(?:[^'\\]|\\.)*'|\"(?:[^\"\\]|\\.)*\")\)")
+    pats = [ast.literal_eval(m) for m in lit.findall(text)]
+    if lit.sub("pyparsing.Regex(<R>)", text) != GRAMMAR_SHAPE or len(pats) != 2:
+      raise Unsupported("GetParams builds a grammar of a different shape: %s" % text[:400])
+    bad = [z3.Re(z3.StringVal(ch)) for ch in "=,)"]
+    not_key = z3.Union(*(bad + [_z3_class(_space_ranges())]))
+    spec_key = z3.Plus(_z3_not(not_key))
+    spec_val = z3.Star(_z3_not(z3.Union(z3.Re(z3.StringVal(",")), z3.Re(z3.StringVal(")")))))
+    wit = {}
+    for name, pat, spec in (("key_language", pats[0], spec_key), ("value_language", pats[1], spec_val)):
+      d = language_difference(regex_to_z3(pat), spec)
+      if d is not None:
+        wit[name] = {"pattern": pat, "text": d}
+      s.claim(name, d is None)
+    s.replay = {"differences": wit}
+    if wit:
+      s.info["raised"] = "; ".join("%s: %r is in exactly one of L(%r) and the documented language" % (k, v["text"], v["pattern"])
+                                   for k, v in wit.items())
+    return s
+  return scenario
+
+
 def literals_scenario():
   def scenario(ip):
     s = Scen()
@@ -302,6 +441,10 @@ def cases(tier):
     for pat in itertools.product("pk", repeat=n):
       out.append(Case(PROP, "qkeras/safe_eval.py::GetParams", "items_" + ("".join(pat) or "none"),
                       getparams_scenario(pat), replay_kind=None, assumptions=ASSUME, term_mode=True))
+  out.append(Case(PROP, "qkeras/safe_eval.py::GetParams", "grammar", grammar_scenario(), replay_kind="c10_grammar",
+                  assumptions=["pyparsing operators (Suppress, Optional, delimitedList, Group, Regex, +) behave as documented",
+                               "Python's re and z3's regular expressions agree on the translated subset (character classes, "
+                               "repetition) over code points up to 0x2FFFF"], term_mode=True))
   out.append(Case(PROP, "qkeras/safe_eval.py::safe_eval", "dispatch", safe_eval_scenario(), replay_kind=None,
                   assumptions=ASSUME))
   out.append(Case(PROP, "qkeras/safe_eval.py::GetArg", "literals", literals_scenario(), replay_kind=None, assumptions=ASSUME,
